@@ -1101,6 +1101,16 @@ pub(crate) fn m_inline_tags() {
     let a = crate::config::plain().string_from_read(&b"<div><p>one</p> \n <p>two</p></div>"[..], 40).expect("renders");
     let b = crate::config::plain().string_from_read(&b"<div><p>one</p><p>two</p></div>"[..], 40).expect("renders");
     assert!(a == b, "whitespace between blocks changes the result: {:?} vs {:?}", a, b);
+    // every kind of collapsible whitespace between blocks is ignored alike (tab, CR, form feed, no-break space excluded)
+    for ws in ["\t", "\n\t", " \t ", "\r\n", "\x0c", "\n\t\t\n"] {
+        for (open, close) in [("<p>", "</p>"), ("<h2>", "</h2>"), ("<blockquote>", "</blockquote>"), ("<ul><li>", "</li></ul>")] {
+            let with = format!("<div>{}one{}{}<p>two</p></div>", open, close, ws);
+            let without = format!("<div>{}one{}<p>two</p></div>", open, close);
+            let a = crate::config::plain().string_from_read(with.as_bytes(), 40).expect("renders");
+            let b = crate::config::plain().string_from_read(without.as_bytes(), 40).expect("renders");
+            assert!(a == b, "whitespace {:?} after {} changes the result: {:?} vs {:?}", ws, open, a, b);
+        }
+    }
     let toks = rich_tokens(b"<p>plain <em>emph <strong>both</strong></em> tail</p><pre>abcdefghijklmnopqrstuvwxyz <em>zz</em></pre>", 12, false);
     let find = |w: &str| toks.iter().find(|(t, _)| t.contains(w)).map(|(_, a)| a.clone()).unwrap_or_default();
     assert!(find("plain").is_empty(), "plain text is annotated: {:?}", find("plain"));
@@ -1446,8 +1456,26 @@ pub(crate) fn m_frag_from_id() {
     assert!(pos("six") < pos("#n") && pos("#n") < pos("seven"), "#n misplaced: {:?}", names);
 }
 
+/// The lines route and the string route give the same lines, also when a marker is still waiting at the end.
+pub(crate) fn m_routes_lines() {
+    let _which: u8 = kani::any();
+    let docs: [&str; 5] = [
+        "<p>Hi <a id=\"e\"></a></p>", "<p>Hi</p><div id=\"d\"></div>", "<p>one <span id=\"s\"></span></p><p>two</p>",
+        "<ul><li>x <a name=\"n\"></a></li></ul>", "<p>plain</p>",
+    ];
+    for html in docs.iter() {
+        for width in [5usize, 20] {
+            let cfg = crate::config::plain();
+            let s = cfg.string_from_read(html.as_bytes(), width).expect("renders");
+            let lines = crate::config::plain().lines_from_read(html.as_bytes(), width).expect("renders");
+            let joined: String = lines.iter().map(|l| { let mut t = l.chars().collect::<String>(); t.push('\n'); t }).collect();
+            assert!(joined == s, "{} at width {}: lines route {:?}, string route {:?}", html, width, joined, s);
+        }
+    }
+}
+
 crate::verif_common::registry! {
-    m_frag_from_id, m_prefix_estimate, m_style_elements, m_sup_children, m_frag_layout, m_selector_entry, m_block_colour_leak, m_footnote_list, m_strike_layout, m_element_dispatch, m_link_min_width, m_table_sections, m_table_caption, m_inline_tags, m_colspan_huge, m_frag_in_word, m_ol_prefix_width, m_dom_reuse, m_columns, m_prefix_blank_lines, m_shallow_empty, m_link_footnotes, m_strike_affix, m_frag_nested, m_dom_children, m_cell_unwind, m_routes_width, m_insert_child, m_ol_numbering, m_prefix_width, m_into_cells, m_table_col_width, m_table_alloc,
+    m_routes_lines, m_frag_from_id, m_prefix_estimate, m_style_elements, m_sup_children, m_frag_layout, m_selector_entry, m_block_colour_leak, m_footnote_list, m_strike_layout, m_element_dispatch, m_link_min_width, m_table_sections, m_table_caption, m_inline_tags, m_colspan_huge, m_frag_in_word, m_ol_prefix_width, m_dom_reuse, m_columns, m_prefix_blank_lines, m_shallow_empty, m_link_footnotes, m_strike_affix, m_frag_nested, m_dom_children, m_cell_unwind, m_routes_width, m_insert_child, m_ol_numbering, m_prefix_width, m_into_cells, m_table_col_width, m_table_alloc,
     r1_cascade_pairs, r1_cascade_triples, r2_specificity_order, r2_specificity_add,
     r3_ol_prefix_total, r4_ol_prefix_is_max,
     r9_tree_map_reduce_order, r12_config_plumbing, r12_width_zero,
